@@ -332,7 +332,8 @@ pub fn id_from_var(
                     },
                 )
             } else {
-                panic!("cannot have empty identifier")
+                let msg = "Cannot define an empty tuple of variables";
+                return Err(vec![TypeErr::new(var.pos, msg)]);
             };
 
             let (msg, expr_exp) = (
